@@ -189,6 +189,45 @@ CHECKS = {
        'on vectorised pandas semantics over run-time tables and is not decided by this family.',
   note='Role literals are an explicit table (id: ID, L1).',
   ref='DESIGN.md §2 C14'),
+ 'C07': dict(
+  technique='field-coverage rule: the symbol-bearing fields of Model (read from Model.__init__) versus the fields that '
+            'each model-wide substitution function rewrites (AST def-use on the substitution dictionary)',
+  text='Narrow claim: F1 only decides that a model-wide renaming reaches every symbol-bearing field of the model (a '
+       'field that is skipped keeps the old symbol and the model no longer means the same). Preservation of the model '
+       'function by mu-referencing, make_declarative, cleanup, ODE solving, format conversion, and agreement of the '
+       'evaluators with finite differences are run-time symbolic/numeric questions and are not decided by this family.',
+  note='Two open findings (rename_symbols misses dependent_variables / observation_transformation).',
+  ref='DESIGN.md §2 C07'),
+ 'C08': dict(
+  technique='alphabet/dispatch table agreement (MFL mode -> setter in the feature modules, mode -> detector in '
+            'get_model_features, export list of pharmpy.modeling) and exhaustive truth-table evaluation of the '
+            'elimination detector formulas over their shared atoms (atoms proven identical by AST comparison)',
+  text='Narrow claim: T1 decides that every absorption/elimination mode has a setter and a detector that name the same '
+       'feature; T2 decides that at most one elimination detector can be true for any model (pairwise disjoint formulas '
+       'over identical atoms); T3 lists setter-dispatch corners without branch (advisory). That a setter produces a '
+       'model its detector recognises, idempotence, reversibility and absence of internal errors depend on graph '
+       'rewrites of run-time compartmental systems and are not decided by this family.',
+  note='Absorption detectors inspect run-time dose objects; only their pairing (T1) is decided.',
+  ref='DESIGN.md §2 C08'),
+ 'C09': dict(
+  technique='docstring-formula versus template-expression comparison (formula parser for the ``.. math::`` blocks, AST '
+            'to sympy conversion of the Expr/BooleanExpr constructor calls, algebraic normalisation) and substitution '
+            'cov = median for neutrality',
+  text='Narrow claim: X1 decides that the covariate effect templates are the documented functions and are neutral at '
+       'the reference value. Error models, IIV/IOV, eta transformations, allometry, mean transit/absorption time and '
+       'removal of extensions are assembled from run-time model statements and are not decided by this family.',
+  note='sympy is used as a normaliser of source-level expressions, not to execute pharmpy.',
+  ref='DESIGN.md §2 C09'),
+ 'C11': dict(
+  technique='CFG dominance / reaching-definition rule on the covariance repair path (every returned matrix is dominated '
+            'by a successful PSD test of the same variable; overwrites guarded by object identity; repair only under a '
+            'failed validation) and predicate-agreement between validation and repair',
+  text='Narrow claim: V1 decides the clause "invalid values are replaced by something that passed the PSD test, valid '
+       'values are never altered" as a path property of nearest_positive_semidefinite, nearest_valid_parameters and '
+       'Model._canonicalize_parameter_estimates. Name/variance preservation under join/split/concatenate, block-diagonal '
+       'composition and inverse conversions are index bookkeeping on run-time matrices and are not decided.',
+  note='Nearness (Frobenius) of the repaired matrix is numeric and not decided.',
+  ref='DESIGN.md §2 C11'),
 }
 NA = {}
 
